@@ -24,6 +24,8 @@ def battery():
         "a + b + A + B + G", "A*B*G", "a:A + b:B + A:B:G + G", "y ~ . - a" if False else "b ~ a + A | B + z | w:G", "scale(a) + center(b):A + poly(a, 2)",
         "0 + A:B + B:G + a:G", "z + w + A", "bs(a, df=4):B + cr(b, df=3)", "C(A, contr.sum) * C(G, contr.helmert) + {a + b}", "a + hashed(G, levels=5) + z",
         "center(`x 1`) + scale(`x 1`):A + {`x 1` * b}", "scale(`x 1`) + center(x_1) + {`x 1` * x_1}", "scale(a) + center(a) + scale(b):G + poly(b, 2)",
+        # pure interactions (main effects absent): which margin stays full rank must not depend on set iteration order
+        "A:B", "a + A:G", "A:B:G", "b + B:G + A:B", "0 + a + G:A",
     ]
     # follow-up data for spec reuse: what a spec replays must not depend on the hash seed either
     df2 = df.iloc[::-1].reset_index(drop=True).copy()
